@@ -260,6 +260,13 @@ fn history(ctx: &Ctx, out: &mut Out, rng: &mut Rng, prop: &str, idx: u64) {
                 }
             }
             socks_used.insert(s);
+            // now and then a valid request arrives with UDP source port 0: the reply to it cannot
+            // be sent (send fault); everything else in its batch must be unaffected
+            if !c02 && d.raw.is_some() && rng.chance(1, 40) {
+                let sp = if rng.chance(1, 2) { valid_classic(rng).data } else { valid_ietf(rng, Some(&srv)).data };
+                sends.push((SPOOF_PORT0, sp));
+                out.obs("spoofed_port0_requests", 1);
+            }
             sends.push((s, dg));
         }
         total_sent += sends.len();
@@ -304,10 +311,12 @@ pub struct Totals {
     pub replies_classic: u64,
     pub replies_ietf: u64,
     pub bytes: u64,
+    pub spoofed: u64,
 }
 
 impl Totals {
     pub fn add(&mut self, r: &Round) {
+        self.spoofed += r.sent.iter().filter(|s| s.sock == SPOOF_PORT0).count() as u64;
         self.datagrams += r.sent.len() as u64 + r.sentinel_sent as u64;
         self.replies += r.replies.len() as u64 + r.sentinel_replies as u64;
         self.bytes += r.replies.iter().map(|x| x.data.len() as u64).sum::<u64>() + r.sentinel_bytes as u64;
@@ -334,6 +343,12 @@ pub fn check_stats(out: &mut Out, d: &mut Driver, t: &Totals, replay: &dyn Fn() 
     }
     if s.responses != t.replies {
         bad.push(format!("responses recorded {} != datagrams the harness received {}", s.responses, t.replies));
+    }
+    if s.failed_send > t.spoofed {
+        bad.push(format!("{} failed sends recorded but only {} datagrams had an unreachable source", s.failed_send, t.spoofed));
+    }
+    if s.valid != s.responses + s.failed_send {
+        bad.push(format!("valid requests {} != responses {} + failed sends {}", s.valid, s.responses, s.failed_send));
     }
     if s.classic_resp != t.replies_classic || s.rfc_resp != t.replies_ietf {
         bad.push(format!("per-protocol responses recorded classic {} ietf {} != received classic {} ietf {}", s.classic_resp, s.rfc_resp, t.replies_classic, t.replies_ietf));
@@ -401,8 +416,8 @@ pub fn replay_history(out: &mut Out, prop: &str, r: &serde_json::Value) {
     let mut rounds: Vec<Vec<(usize, Vec<u8>)>> = Vec::new();
     let mut tot = Totals::default();
     for rd in r["rounds"].as_array().cloned().unwrap_or_default() {
-        let sends: Vec<(usize, Vec<u8>)> = rd.as_array().unwrap().iter().map(|x| (x[0].as_u64().unwrap() as usize, crate::prng::unhex(x[1].as_str().unwrap()).unwrap())).collect();
-        d.ensure_socks(sends.iter().map(|s| s.0 + 1).max().unwrap_or(1));
+        let sends: Vec<(usize, Vec<u8>)> = rd.as_array().unwrap().iter().map(|x| (x[0].as_u64().map(|v| v as usize).unwrap_or(SPOOF_PORT0), crate::prng::unhex(x[1].as_str().unwrap()).unwrap())).collect();
+        d.ensure_socks(sends.iter().filter(|s| s.0 != SPOOF_PORT0).map(|s| s.0 + 1).max().unwrap_or(1));
         rounds.push(sends.clone());
         let round = d.round(sends, true);
         let rp = || round_replay(&cfg, &rounds);
